@@ -110,10 +110,11 @@ def run(ctx):
         masks = []
         for nid, c in subsets:
             m = c.args[0]
-            text = src(m)
+            from ..canon import canon as _canon
+            text = _canon(m)
             if isinstance(m, ast.Name):
                 defs = sorted([s for s in walk_no_nested(f.node) if isinstance(s, ast.Assign) and isinstance(s.targets[0], ast.Name) and s.targets[0].id == m.id and s.lineno < c.lineno], key=lambda s: s.lineno)
-                text = src(defs[-1].value) if defs else text
+                text = _canon(defs[-1].value) if defs else text
             masks.append((nid, text, [src(a) for a in c.args[1:]]))
         if name == "draw":
             cc = find_stmt("$$S = concatenate([$$S, $$x])", f.node)
@@ -123,7 +124,7 @@ def run(ctx):
             rr = [n for n in walk_no_nested(f.node) if isinstance(n, ast.Return) and isinstance(n.value, ast.Tuple)]
             samp = src(rr[0].value.elts[0]) if len(rr) == 1 else "samples"
         cube = [m for m in masks if f"self.model.in_unit_hypercube({samp})" in m[1] and samp in m[2]]
-        prior = [m for m in masks if f"np.isfinite({samp}['logP'])" in m[1] and samp in m[2]]
+        prior = [m for m in masks if f"isfinite({samp}['logP'])" in m[1] and samp in m[2]]
         ctx.ob("R-ORDER", "C09.4", f, "generated points pass a mask containing model.in_unit_hypercube(points)", len(cube) == 1, f"masks {[m[1][:70] for m in masks]}")
         ctx.ob("R-ORDER", "C09.4", f, "generated points pass a mask containing isfinite(points['logP'])", len(prior) == 1, f"masks {[m[1][:70] for m in masks]}")
         if cube and prior:
